@@ -25,9 +25,9 @@ def generate_from_spec(spec: model.LSPModel, output_dir: str, test_dir: str) -> 
     code = generate_package_code(spec)
 
     output_path = pathlib.Path(output_dir, PACKAGE_DIR_NAME)
-    if not output_path.exists():
-        output_path.mkdir(parents=True, exist_ok=True)
-        (output_path / "src").mkdir(parents=True, exist_ok=True)
+    # The package directory may exist without `src` (created by hand, or by
+    # another plugin that was given the same output directory).
+    (output_path / "src").mkdir(parents=True, exist_ok=True)
 
     for file_name in code:
         (output_path / file_name).write_text(code[file_name], encoding="utf-8")
